@@ -423,3 +423,70 @@ def r_order_prefix(ctx):
 RULES = [r_order_prefix, r_name_injective, r_order_flow, r_global_use, r_no_module_state, driver.r_option_table, driver.r_solver_readonly,
          lambda ctx: resource_constraints.r_loopvar(ctx, bases=(), solver=True), solution_rules.r_marker,
          lambda ctx: __import__("rules.buffers", fromlist=["x"]).r_sort_net(ctx)]
+
+
+_NAME_ORDER_SELFTEST = '''
+def f(self):
+    for _, obj in sorted(self.problem.objectives.items()):
+        use(obj)
+'''
+
+
+def _orders_by_name(call: ast.Call):
+    """`call` puts elements in the order of their names: sorted / min / max / .sort over the keys or items of a registry (the keys
+    ARE the names), over `.name` attributes, or with a key function that reads `.name`; returns a description or None"""
+    fname = ast.unparse(call.func)
+    is_sort = fname in ("sorted", "min", "max") or (isinstance(call.func, ast.Attribute) and call.func.attr == "sort")
+    if not is_sort:
+        return None
+    operands = list(call.args) + ([call.func.value] if isinstance(call.func, ast.Attribute) and call.func.attr == "sort" else [])
+    key_fn = next((k.value for k in call.keywords if k.arg == "key"), None)
+    REG = ("tasks", "workers", "select_workers", "cumulative_workers", "constraints", "indicators", "objectives")
+    if key_fn is not None:
+        if any(isinstance(x, ast.Attribute) and x.attr in ("name", "uid") for x in ast.walk(key_fn)):
+            return f"key function {ast.unparse(key_fn)[:60]} reads the name"
+        return None      # ordered by something else than the default comparison of the elements
+    for a in operands:
+        for x in ast.walk(a):
+            if isinstance(x, ast.Call) and isinstance(x.func, ast.Attribute) and x.func.attr in ("items", "keys") \
+                    and isinstance(x.func.value, ast.Attribute) and x.func.value.attr in REG:
+                return f"{ast.unparse(x)[:60]}: the keys of that registry are the element names"
+            if isinstance(x, ast.Attribute) and x.attr in ("name",) and isinstance(x.ctx, ast.Load):
+                return f"{ast.unparse(x)[:60]}"
+        if isinstance(a, ast.Attribute) and a.attr in REG:
+            return f"{ast.unparse(a)[:60]}: iterating that registry yields the element names"
+    return None
+
+
+def r_name_order(ctx):
+    """'renaming the elements consistently leaves ... the optimal objective value unchanged': in the code that builds or drives
+    the constraint system (element constructors, SchedulingSolver) nothing may be put in the order of the names - the order in
+    which objectives reach z3.Optimize is their priority in 'lex' mode, the order of the sorter inputs decides ties, ..."""
+    proj = ctx.project
+    # the matcher itself is exercised on every run (the expected number of sites in the package is zero)
+    probe = [n for n in ast.walk(ast.parse(_NAME_ORDER_SELFTEST)) if isinstance(n, ast.Call) and _orders_by_name(n)]
+    if len(probe) != 1:
+        raise P.AnalysisError("R-NAME-ORDER: the matcher does not recognise its own positive example")
+    n = 0
+    hits = 0
+    for m in proj.modules.values():
+        if m.short in ("plotter", "excel_io", "solution", "__init__"):
+            continue      # reporters: the order of a display is not the encoding
+        for fn in [x for x in ast.walk(m.tree) if isinstance(x, ast.FunctionDef)]:
+            if fn.name in ("build_solution", "print_solution", "print_assertions", "print_statistics"):
+                continue
+            n += 1
+            for call in [x for x in ast.walk(fn) if isinstance(x, ast.Call)]:
+                why = _orders_by_name(call)
+                if why is not None:
+                    hits += 1
+                    ctx.violation("R-NAME-ORDER", f"{m.short}.{fn.name}", f"elements ordered by name: {ast.unparse(call)[:60]}",
+                                  f"`{ast.unparse(call)[:120]}` orders elements by their names ({why}): renaming the elements "
+                                  f"consistently changes the order in which they reach the solver (objective priority in 'lex' mode, "
+                                  f"tie-breaking of sorters), hence possibly the optimum", f"{proj.relpath(m.path)}:{call.lineno}")
+    ctx.floor("R-NAME-ORDER", "functions of the encoding phase scanned", n, 120)
+    if not hits:
+        ctx.ok("R-NAME-ORDER", f"nothing is ordered by name in the {n} functions that build or drive the constraint system")
+
+
+RULES.append(r_name_order)
